@@ -11,6 +11,13 @@ CONSTANTS Bids, Spreads, Times, MaxDepth, QuoteKeys
 VARIABLES books, gnow, last, hist, n
 vars == <<books, gnow, last, hist, n>>
 view == <<books, gnow, last, n>>
+\* abstraction for an exploration WITHOUT a depth bound: what a book shows, whether it lives, and the last entry of its history
+\* (not the whole history, not how many operations came before).  The set of abstract states is finite, so TLC reaches a
+\* fixpoint: the state invariants below then hold after histories of ANY length over the model's data.  (Action properties
+\* are checked on the depth-bounded model, which keeps the whole state.)
+LastH(b) == IF b.hist = <<>> THEN <<>> ELSE b.hist[Len(b.hist)]
+fview == <<[c \in Contracts |-> [bid |-> books[c].bid, ask |-> books[c].ask, alive |-> books[c].alive, time |-> books[c].time,
+                                 lh |-> LastH(books[c])]], gnow>>
 
 Init == /\ books = [c \in Contracts |-> NewBook]
         /\ gnow = 0
